@@ -89,6 +89,7 @@ type Parser struct {
 	compileSwitches         map[string]string
 	constants               map[string]string
 	enableEnvironmentErrors bool
+	sawUnresolvedPoryswitch bool
 	verifState
 }
 
@@ -274,7 +275,7 @@ func (p *Parser) ParseProgram() (*ast.Program, error) {
 	}
 	names := make(map[string]struct{}, 0)
 	for _, text := range program.Texts {
-		if _, ok := names[text.Name]; ok {
+		if _, ok := names[text.Name]; ok && !p.sawUnresolvedPoryswitch {
 			return nil, NewParseError(text.Token, fmt.Sprintf("duplicate text label '%s'. Choose a unique label that won't clash with the auto-generated text labels", text.Name))
 		}
 		names[text.Name] = struct{}{}
@@ -291,7 +292,7 @@ func (p *Parser) ParseProgram() (*ast.Program, error) {
 		// that exists as the program's top level statements.
 		if movementStmt, ok := stmt.(*ast.MovementStatement); ok {
 			movementName := movementStmt.Name.Value
-			if existingStmt, ok := movementNames[movementName]; ok {
+			if existingStmt, ok := movementNames[movementName]; ok && !p.sawUnresolvedPoryswitch {
 				return nil, NewParseError(existingStmt.Token, fmt.Sprintf("duplicate movement label '%s'. Choose a unique label that won't clash with the auto-generated movement labels", movementName))
 			}
 			movementNames[movementName] = movementStmt
@@ -789,6 +790,11 @@ func (p *Parser) parsePoryswitchHeader() (string, string, error) {
 	var ok bool
 	if switchValue, ok = p.compileSwitches[switchCase]; p.enableEnvironmentErrors && !ok {
 		return "", "", NewParseError(p.curToken, fmt.Sprintf("no poryswitch for '%s' was specified with the '-s' option", switchCase))
+	}
+	if !ok {
+		// Without the switch value (lint mode) the selected case is a guess, and so are
+		// the auto-generated labels that depend on it.
+		p.sawUnresolvedPoryswitch = true
 	}
 
 	if err := p.expectPeek(token.RPAREN); err != nil {
